@@ -206,6 +206,12 @@ def hostile_extra():
         item = body + prefix + content + pinned.crc24q_table(inner).to_bytes(3, "big")
         if not pinned.frame_ok(item):
             out.append({"name": f"Glstrip:{nm}", "data": item})
+    # a false header whose bogus frame swallows a genuine frame exactly (its "CRC" is junk): the
+    # genuine frame is lost (allowed), but must not turn up later, out of stream order
+    for nm, inner in (("F2", f2), ("F19", f19)):
+        for junk in (b"\x55\x55\x55", b"\x00\xd3\x00"):
+            out.append({"name": f"Dfalse:{nm}:{junk.hex()}",
+                        "data": b"\xd3" + len(inner).to_bytes(2, "big") + inner + junk})
     for it in out:
         it["kind"] = "hostile"
     return out
